@@ -13,7 +13,7 @@ VEC = ("vmap", "repeat", "scan")
 
 @st.composite
 def case_strategy(draw):
-    prog = draw(gfi_strat.st_program(cfg={"nmin": 1, "depths": [1, 1, 0]}, kinds=["static", "static", "vmap", "repeat", "scan", "switch", "mask", "dimap", "or_else"]))
+    prog = draw(gfi_strat.st_program(cfg={"nmin": 1, "depths": [1, 1, 0]}, kinds=["static", "static", "vmap", "repeat", "scan", "switch", "switch", "switch", "mask", "dimap", "or_else"]))
     prog["key"] = draw(st.integers(0, 2**31 - 1))
     prog["flag_repr"] = draw(st.sampled_from(["arr", "py"]))
     prog["idx_repr"] = draw(st.sampled_from(["arr", "py"]))
